@@ -164,6 +164,15 @@ def gen_session_writes(rng: random.Random) -> dict:
         events.append({"at": {"t": 0.2 + rng.random() * 5}, "do": "dev", "act": {"msgs": [pick(rng, [["PingRequest", {}], ["GetTimeRequest", {}], ["SensorStateResponse", {"key": 1}]])], "latency": 0.0}})
     if rng.random() < 0.2:
         events.append({"at": {"t": 3.0 + rng.random() * 2}, "do": "dev", "act": {"msgs": [["DisconnectRequest", {}]], "latency": 0.0}})
+    if rng.random() < 0.35:
+        # a slow peer: the socket accepts only part of a write / nothing for a while, the transport buffers (and, above its
+        # high-water mark, tells the protocol to pause) - what the library hands over and in which order must not change
+        for _ in range(rng.randint(1, 3)):
+            t_b = 0.3 + rng.random() * 4
+            if rng.random() < 0.5:
+                events.append({"at": {"t": t_b}, "do": "fault", "kind": "tx_block", "d": pick(rng, [0.01, 0.2, 1.0])})
+            else:
+                events.append({"at": {"t": t_b}, "do": "fault", "kind": "tx_short", "n": pick(rng, [1, 3, 100, 4096])})
     return {
         "family": "session",
         "knobs": gen_knobs(rng),
